@@ -33,6 +33,51 @@ def configs(ctx, maxn):
     return [json.loads(json.loads(l)[4:]) for l in res["out"].splitlines() if l.startswith('"CFG ')]
 
 
+def guard_val(a):
+    p, tf = a
+    rows = read_ndjson(tf)
+    bad, g = [], 0
+    r = T.validate("Trace_Footprint", "Trace_Footprint.cfg", tf, timeout=3000, heap="6g")
+    while not r["accepted"] and g < 25:
+        g += 1
+        ev = rows[r["rejected_at"] - 1]
+        bad.append(ev)
+        same_sig = lambda x: (x.get("op") == ev.get("op") and x.get("e") == ev.get("e") and
+                              x.get("fault") == ev.get("fault") and (x.get("b", 0) >= 65536) == (ev.get("b", 0) >= 65536)
+                              and x.get("same") == ev.get("same"))
+        rows = [x for x in rows[r["rejected_at"]:] if not same_sig(x)]
+        if not rows:
+            break
+        write_ndjson(tf + ".rest", rows)
+        r = T.validate("Trace_Footprint", "Trace_Footprint.cfg", tf + ".rest", timeout=3000, heap="6g")
+    allr = read_ndjson(tf)
+    return p, bad, sum(1 for x in allr if x["e"] == "Access"), sum(1 for x in allr if x["e"] == "NoCode")
+
+
+def guard_report(ctx, traces, prop="C03"):
+    n = 0
+    seen = set()
+    for p, bad, runs, nocode in parallel(guard_val, traces):
+        ctx.cov["traces_validated_against_impl"] += runs
+        ctx.cov["no_native_code"] = ctx.cov.get("no_native_code", 0) + nocode
+        for ev in bad:
+            key = (ev.get("op"), ev.get("path"), ev.get("fault"), ev.get("b", 0) >= 65536)
+            if key in seen:
+                continue
+            seen.add(key)
+            sig = dict(op=ev.get("op"), path=ev.get("path"), kind="footprint", fault=ev.get("fault"),
+                       bint=ev.get("b", 0) >= 65536)
+            k = ctx.match_known(sig)
+            if k:
+                ctx.known_finding(k["key"], k["what"]); continue
+            n += 1
+            rp = ctx.save_replay("guard_%d.ndjson" % n, json.dumps(ev) + "\n")
+            ctx.violation(prop + ": %s on %s, n=%s m=%s place=%s: fault=%s (array %s element %s) canary=%s same-as-emulation=%s "
+                          "(entitled source elements %s..%s)" % (ev.get("op"), ev.get("path"), ev.get("n"), ev.get("m"),
+                                                                   ev.get("place"), ev.get("fault"), ev.get("farr"), ev.get("fel"),
+                                                                   ev.get("canary"), ev.get("same"), ev.get("lo"), ev.get("hi")), rp)
+
+
 def run(ctx):
     quick = ctx.quick
     ops = c02.int_ops(genops.write())
@@ -89,46 +134,7 @@ def run(ctx):
             raise MachineryError("h_guard failed rc=%d %s" % (rc, out[-600:]))
         return p, tf
     traces = parallel(one, jobs)
-    def val(a):
-        p, tf = a
-        rows = read_ndjson(tf)
-        bad, g = [], 0
-        r = T.validate("Trace_Footprint", "Trace_Footprint.cfg", tf, timeout=3000, heap="6g")
-        while not r["accepted"] and g < 25:
-            g += 1
-            ev = rows[r["rejected_at"] - 1]
-            bad.append(ev)
-            same_sig = lambda x: (x.get("op") == ev.get("op") and x.get("e") == ev.get("e") and
-                                  x.get("fault") == ev.get("fault") and (x.get("b", 0) >= 65536) == (ev.get("b", 0) >= 65536)
-                                  and x.get("same") == ev.get("same"))
-            rows = [x for x in rows[r["rejected_at"]:] if not same_sig(x)]
-            if not rows:
-                break
-            write_ndjson(tf + ".rest", rows)
-            r = T.validate("Trace_Footprint", "Trace_Footprint.cfg", tf + ".rest", timeout=3000, heap="6g")
-        allr = read_ndjson(tf)
-        return p, bad, sum(1 for x in allr if x["e"] == "Access"), sum(1 for x in allr if x["e"] == "NoCode")
-    n = 0
-    seen = set()
-    for p, bad, runs, nocode in parallel(val, traces):
-        ctx.cov["traces_validated_against_impl"] += runs
-        ctx.cov["no_native_code"] = ctx.cov.get("no_native_code", 0) + nocode
-        for ev in bad:
-            key = (ev.get("op"), ev.get("path"), ev.get("fault"), ev.get("b", 0) >= 65536)
-            if key in seen:
-                continue
-            seen.add(key)
-            sig = dict(op=ev.get("op"), path=ev.get("path"), kind="footprint", fault=ev.get("fault"),
-                       bint=ev.get("b", 0) >= 65536)
-            k = ctx.match_known(sig)
-            if k:
-                ctx.known_finding(k["key"], k["what"]); continue
-            n += 1
-            rp = ctx.save_replay("guard_%d.ndjson" % n, json.dumps(ev) + "\n")
-            ctx.violation("%s on %s, n=%s m=%s place=%s: fault=%s (array %s element %s) canary=%s same-as-emulation=%s "
-                          "(entitled source elements %s..%s)" % (ev.get("op"), ev.get("path"), ev.get("n"), ev.get("m"),
-                                                                   ev.get("place"), ev.get("fault"), ev.get("farr"), ev.get("fel"),
-                                                                   ev.get("canary"), ev.get("same"), ev.get("lo"), ev.get("hi")), rp)
+    guard_report(ctx, traces)
     ctx.cov["exhaustive"] = False
     ctx.cov["rule"] = ("every Footprint configuration up to MaxN (index-map loads: all; plain: all opcodes in the thorough "
                        "tier, a seeded subset in quick) x both placements x 4 paths, plus n around 64/128/256")
